@@ -1690,6 +1690,13 @@ package desync
 //@ axiom wh0: forall w int :: wh(w, w+48) == fold(w, 48)
 //@ axiom manual whS: forall w int, p int :: p >= w+48 ==> wh(w, p+1) == rotl32(wh(w, p), 1) ^ rotl32(tbl(inb(p-48)), 48) ^ tbl(inb(p))
 
+//# rollIdentity (machine bit-vectors): rolling the 48-term buzhash sum of window values t0..t47 by one position
+//# (rotate by one, remove the oldest value rotated by 48, add the new value) gives the 48-term sum of t1..t48.
+//# With fold/wh defined by exactly these steps, wh(w, p) is therefore the sum over the 48 bytes before p.
+//@ lemma @C02 bv rollIdentity: forall t0 uint32, t1 uint32, t2 uint32, t3 uint32, t4 uint32, t5 uint32, t6 uint32, t7 uint32, t8 uint32, t9 uint32, t10 uint32, t11 uint32, t12 uint32, t13 uint32, t14 uint32, t15 uint32, t16 uint32, t17 uint32, t18 uint32, t19 uint32, t20 uint32, t21 uint32, t22 uint32, t23 uint32, t24 uint32, t25 uint32, t26 uint32, t27 uint32, t28 uint32, t29 uint32, t30 uint32, t31 uint32, t32 uint32, t33 uint32, t34 uint32, t35 uint32, t36 uint32, t37 uint32, t38 uint32, t39 uint32, t40 uint32, t41 uint32, t42 uint32, t43 uint32, t44 uint32, t45 uint32, t46 uint32, t47 uint32, t48 uint32 :: \
+//@     rotl32((rotl32(t0, 47) ^ rotl32(t1, 46) ^ rotl32(t2, 45) ^ rotl32(t3, 44) ^ rotl32(t4, 43) ^ rotl32(t5, 42) ^ rotl32(t6, 41) ^ rotl32(t7, 40) ^ rotl32(t8, 39) ^ rotl32(t9, 38) ^ rotl32(t10, 37) ^ rotl32(t11, 36) ^ rotl32(t12, 35) ^ rotl32(t13, 34) ^ rotl32(t14, 33) ^ rotl32(t15, 32) ^ rotl32(t16, 31) ^ rotl32(t17, 30) ^ rotl32(t18, 29) ^ rotl32(t19, 28) ^ rotl32(t20, 27) ^ rotl32(t21, 26) ^ rotl32(t22, 25) ^ rotl32(t23, 24) ^ rotl32(t24, 23) ^ rotl32(t25, 22) ^ rotl32(t26, 21) ^ rotl32(t27, 20) ^ rotl32(t28, 19) ^ rotl32(t29, 18) ^ rotl32(t30, 17) ^ rotl32(t31, 16) ^ rotl32(t32, 15) ^ rotl32(t33, 14) ^ rotl32(t34, 13) ^ rotl32(t35, 12) ^ rotl32(t36, 11) ^ rotl32(t37, 10) ^ rotl32(t38, 9) ^ rotl32(t39, 8) ^ rotl32(t40, 7) ^ rotl32(t41, 6) ^ rotl32(t42, 5) ^ rotl32(t43, 4) ^ rotl32(t44, 3) ^ rotl32(t45, 2) ^ rotl32(t46, 1) ^ rotl32(t47, 0)), 1) ^ rotl32(t0, 48) ^ t48 == \
+//@     rotl32(t1, 47) ^ rotl32(t2, 46) ^ rotl32(t3, 45) ^ rotl32(t4, 44) ^ rotl32(t5, 43) ^ rotl32(t6, 42) ^ rotl32(t7, 41) ^ rotl32(t8, 40) ^ rotl32(t9, 39) ^ rotl32(t10, 38) ^ rotl32(t11, 37) ^ rotl32(t12, 36) ^ rotl32(t13, 35) ^ rotl32(t14, 34) ^ rotl32(t15, 33) ^ rotl32(t16, 32) ^ rotl32(t17, 31) ^ rotl32(t18, 30) ^ rotl32(t19, 29) ^ rotl32(t20, 28) ^ rotl32(t21, 27) ^ rotl32(t22, 26) ^ rotl32(t23, 25) ^ rotl32(t24, 24) ^ rotl32(t25, 23) ^ rotl32(t26, 22) ^ rotl32(t27, 21) ^ rotl32(t28, 20) ^ rotl32(t29, 19) ^ rotl32(t30, 18) ^ rotl32(t31, 17) ^ rotl32(t32, 16) ^ rotl32(t33, 15) ^ rotl32(t34, 14) ^ rotl32(t35, 13) ^ rotl32(t36, 12) ^ rotl32(t37, 11) ^ rotl32(t38, 10) ^ rotl32(t39, 9) ^ rotl32(t40, 8) ^ rotl32(t41, 7) ^ rotl32(t42, 6) ^ rotl32(t43, 5) ^ rotl32(t44, 4) ^ rotl32(t45, 3) ^ rotl32(t46, 2) ^ rotl32(t47, 1) ^ rotl32(t48, 0)
+
 //@ func (c *Chunker) Next
 //@   prop C02
 //@   requires wfChunker(c) && len(hashTable) == 256
@@ -1716,3 +1723,63 @@ package desync
 //@   loop 2: invariant forall j int :: c.hIdx <= j && j < 48 ==> c.hWindow[j] == inb(c.start + pos - 48 + j - c.hIdx)
 //@   loop 2: invariant forall j int :: 0 <= j && j < c.hIdx ==> c.hWindow[j] == inb(c.start + pos - c.hIdx + j)
 //@   loop 2: invariant forall q int :: c.min < q && q <= pos ==> !boundary(wh(c.start + c.min - 48, c.start + q), c.hDiscriminator)
+
+// ---------------------------------------------------------------------------------------------
+// C01: planning. Every seed answers a match length between 0 and the number of chunks asked about;
+// the sequencer turns that into consecutive index segments; a plan made from position 0 tiles the
+// index: first segment starts at chunk 0, each next one right after the previous, the last ends at
+// the last chunk.
+
+//@ func (s Seed) LongestMatchWith(chunks) (n, seg)
+//@   pure
+//@   ensures 0 <= n && n <= len(chunks)
+
+//@ func (s SeedSegment) Size() (r0)
+//@   pure
+//@ func (s SeedSegment) FileName() (r0)
+//@   pure
+
+//@ guard FileSeed: isInvalid by mu
+
+//@ func (s *FileSeed) maxMatchFrom
+//@   prop C01
+//@   pure
+//@   requires 0 <= p && p <= len(s.index.Chunks) && limit >= 0
+//@   ensures len(r0) <= len(chunks) && (limit != 0 ==> len(r0) <= limit)
+//@   ensures forall k int :: 0 <= k && k < len(r0) ==> r0[k].ID == chunks[k].ID
+//@   loop 1: invariant 0 <= sp && dp == p + sp && sp <= len(chunks) && dp <= len(s.index.Chunks) && (limit != 0 ==> sp <= limit)
+//@   loop 1: invariant forall k int :: 0 <= k && k < sp ==> chunks[k].ID == s.index.Chunks[p+k].ID
+
+//@ func (s *FileSeed) LongestMatchWith
+//@   prop C01
+//@   nochecks bounds
+//# positions recorded in s.pos are positions of s.index.Chunks (NewIndexSeed builds the map that way)
+//@   assume@before:maxMatchFrom 0 <= p && p <= len(s.index.Chunks)
+//@   ensures 0 <= r0 && r0 <= len(chunks)
+//@   loop 1: invariant 0 <= max && max <= len(chunks) && max == len(match) && limit >= 0
+
+//@ func (s *nullChunkSeed) LongestMatchWith
+//@   prop C01
+//@   ensures 0 <= r0 && r0 <= len(chunks)
+//@   loop 1: invariant 0 <= n && n <= $i && $i <= len(chunks)
+
+//@ func (r *SeedSequencer) Next
+//@   prop C01
+//@   requires 0 <= r.current && r.current < len(r.index.Chunks)
+//@   modifies r.current
+//@   ensures segment.first == old(r.current) && segment.last == r.current - 1 && segment.index == r.index
+//@   ensures old(r.current) < r.current && r.current <= len(r.index.Chunks) && done == (r.current >= len(r.index.Chunks))
+//@   loop 1: invariant 1 <= advance && advance <= len(r.index.Chunks) - r.current
+
+//@ func (r *SeedSequencer) Plan
+//@   prop C01
+//@   requires r.current == 0
+//@   modifies r.current
+//@   ensures len(r.index.Chunks) == 0 ==> len(plan) == 0
+//@   ensures len(r.index.Chunks) > 0 ==> len(plan) > 0 && plan[0].indexSegment.first == 0 && plan[len(plan)-1].indexSegment.last == len(r.index.Chunks) - 1
+//@   ensures forall k int :: 0 < k && k < len(plan) ==> plan[k].indexSegment.first == plan[k-1].indexSegment.last + 1
+//@   ensures forall k int :: 0 <= k && k < len(plan) ==> plan[k].indexSegment.first <= plan[k].indexSegment.last
+//@   loop 1: invariant 0 <= r.current && r.current < len(r.index.Chunks) && (len(plan) == 0 <==> r.current == 0)
+//@   loop 1: invariant len(plan) > 0 ==> plan[0].indexSegment.first == 0 && plan[len(plan)-1].indexSegment.last == r.current - 1
+//@   loop 1: invariant forall k int :: 0 < k && k < len(plan) ==> plan[k].indexSegment.first == plan[k-1].indexSegment.last + 1
+//@   loop 1: invariant forall k int :: 0 <= k && k < len(plan) ==> plan[k].indexSegment.first <= plan[k].indexSegment.last
